@@ -1,22 +1,21 @@
 /-
   Props/C11 — constructors reject unphysical parameters and normalise signs.
 
-  Subject: `mkComp` (Model/Ctor.lean, the model of the eleven `__init__` methods of components.py).
+  Subject: `mkComp` (Model/Ctor.lean, the model of the eleven `__init__` methods of components.py, as repaired
+  by the /repo commits 2b347cd (PMux rs), b1d6b51 (Rectifier rs), b59f1ff (|io| axis), 7008460 (LinReg iq)).
 
    A. rejections (each with a ValueError-class error):
         reject_eff_const, reject_linreg_dropout, reject_rload_zero, reject_rs_list_pmux / _rectifier,
         reject_rs_scalar_rectifier, reject_limits_<kind> (all 11 kinds),
-        table causes (`TableRejects`): table_missing_key, table_io_not_increasing, table_shape_mismatch,
-        table_ig_negative, table_eff_range — lifted to every table-bearing (kind, argument) pair by
-        reject_table_<kind>[_<argument>].
-   B. accepted_normalised_partial : `mkComp kind name a = .ok c → c.Phys`, excluding
-        (i)  a negative number given as `rs` to PMux / Rectifier      — findings F08 / F12,
-        (ii) 2-D tables outside C10's conditioning (negative io axis — F11 —, unsorted / negative vi axis).
-      accepted_normalised_full_fails : the unrestricted statement is FALSE (PMux(rs=-1), Rectifier(rs=-1)).
-   C. sign_insensitive : negating magnitude-type numeric arguments does not change the constructed
-      component; for the ground current `ig` (stored as given) only up to the displayed `_params`
-      (sign_insensitive_ig_partial); for a scalar `rs` of PMux / Rectifier it fails
-      (sign_insensitive_rs_fails).
+        table causes (`TableRejects`): table_missing_key, table_io_not_increasing (in magnitude),
+        table_shape_mismatch, table_ig_negative, table_eff_range — lifted to every table-bearing
+        (kind, argument) pair by reject_table_<kind>[_<argument>].
+   B. accepted_normalised : `mkComp kind name a = .ok c → c.Phys` — for all kinds, all arguments, 1-D and 2-D
+      tables in any row order (no side condition).
+   C. sign_insensitive : negating magnitude-type numeric arguments (the scalar `rs` of PMux / Rectifier
+      included) does not change the constructed component; for the ground current `ig`, which is stored as
+      given, only up to the displayed `_params` (sign_insensitive_ig_partial).
+  Regression examples keep the former witnesses of findings F08 / F12 / F28-C11-IQKEY.
 -/
 import SysLoss.Proofs.Ctor
 
@@ -126,11 +125,12 @@ theorem table_missing_key (d : List (String × PV α)) (z : String) (chk : List 
     (h : d.lookup "vi" = none ∨ d.lookup "io" = none ∨ d.lookup z = none) : TableRejects (mkTable d z chk) :=
   mkTable_missing_key d z chk h
 
-/-- io axis not strictly increasing -/
+/-- io axis not strictly increasing in magnitude (as given, or after `abs`: `[-2, -1]` is refused too) -/
 theorem table_io_not_increasing {d : List (String × PV α)} {z : String} (chk : List α → Except Err Unit)
     {vi zz : PV α} {l : List (PV α)} {ios : List α}
     (hvi : d.lookup "vi" = some vi) (hio : d.lookup "io" = some (.list l)) (hz : d.lookup z = some zz)
-    (hl : l.mapM (numArg "io") = .ok ios) (h : ¬ ios.Pairwise (· < ·)) : TableRejects (mkTable d z chk) :=
+    (hl : l.mapM (numArg "io") = .ok ios) (h : ¬ (ios.map nabs).Pairwise (· < ·)) :
+    TableRejects (mkTable d z chk) :=
   mkTable_io_not_increasing chk hvi hio hz hl h
 
 /-- shape mismatch: number of rows ≠ number of vi entries, or a row whose length ≠ number of io entries -/
@@ -195,7 +195,7 @@ theorem reject_table_pswitch (name : String) (a : Args α) {d : List (String × 
   simp only [absArg_num hrs, ex_bind_ok, hig, he, ex_bind_error]
   exact ⟨e, rfl, hc⟩
 
-theorem reject_table_pmux (name : String) (a : Args α) {d : List (String × PV α)} {rr : α × Option (List α)}
+theorem reject_table_pmux (name : String) (a : Args α) {d : List (String × PV α)} {rr : α × Option (List α) × PV α}
     (hrs : mkRsMux (arg a "rs" (.float 0)) = .ok rr) (hig : arg a "ig" (.float 0) = .dict d)
     (h : TableRejects (mkTable d "ig" chkIg)) : Rejects (mkComp .pmux name a) := by
   obtain ⟨e, he, hc⟩ := mkIg_rejects h
@@ -232,6 +232,21 @@ theorem reject_table_linreg_iq (name : String) (a : Args α) {vo z : PV α} {v d
   simp only [linregIgc, hiq, nonZeroArg, if_true, hz, ex_pure, ex_bind_ok, he, ex_bind_error]
   exact ⟨e, rfl, hc⟩
 
+/-- LinReg, table given under the deprecated `iq` without an `"iq"` entry: it is taken as it is (repair
+    7008460; it used to raise `KeyError`), so a missing `"ig"` entry is the ordinary ValueError -/
+theorem reject_table_linreg_iq_nokey (name : String) (a : Args α) {vo : PV α} {v dr : α}
+    {d : List (String × PV α)}
+    (hvo : a.lookup "vo" = some vo) (hv : vo.num? = some v)
+    (hd : (arg a "vdrop" (.float 0)).num? = some dr) (hlt : |dr| < |v|)
+    (hiq : arg a "iq" (.float 0) = .dict d) (hz : d.lookup "iq" = none)
+    (h : TableRejects (mkTable d "ig" chkIg)) : Rejects (mkComp .linreg name a) := by
+  obtain ⟨e, he, hc⟩ := mkIg_rejects h
+  unfold mkComp
+  simp only [req_some hvo, ex_bind_ok, numArg_num hv, absArg_num hd, nabs_eq_abs]
+  rw [if_neg (by simpa using hlt)]
+  simp only [linregIgc, hiq, nonZeroArg, if_true, hz, ex_pure, ex_bind_ok, he, ex_bind_error]
+  exact ⟨e, rfl, hc⟩
+
 theorem reject_table_rectifier_vdrop (name : String) (a : Args α) {d : List (String × PV α)}
     (hvd : arg a "vdrop" (.float 0) = .dict d) (h : TableRejects (mkTable d "vdrop")) :
     Rejects (mkComp .rectifier name a) := by
@@ -241,7 +256,7 @@ theorem reject_table_rectifier_vdrop (name : String) (a : Args α) {d : List (St
   exact ⟨e, rfl, hc⟩
 
 theorem reject_table_rectifier_ig (name : String) (a : Args α) {d : List (String × PV α)}
-    {rr : α × Option (List α)}
+    {rr : α × Option (List α) × PV α}
     (hvd : (arg a "vdrop" (.float 0)).num? = some 0) (hrs : mkRsRect (arg a "rs" (.float 0)) = .ok rr)
     (hig : arg a "ig" (.float 0) = .dict d) (h : TableRejects (mkTable d "ig" chkIg)) :
     Rejects (mkComp .rectifier name a) := by
@@ -343,7 +358,7 @@ theorem reject_limits_pswitch (name : String) (a : Args α) {w1 w2 w3 : α} {p :
   simp only [absArg_num h1, ex_bind_ok, hps, absArg_num h2, absArg_num h3, he, ex_bind_error]
   exact ⟨e, rfl, hc⟩
 
-theorem reject_limits_pmux (name : String) (a : Args α) {rr : α × Option (List α)} {w2 w3 : α} {p : Param α}
+theorem reject_limits_pmux (name : String) (a : Args α) {rr : α × Option (List α) × PV α} {w2 w3 : α} {p : Param α}
     (h1 : mkRsMux (arg a "rs" (.float 0)) = .ok rr) (hps : mkIg (arg a "ig" (.float 0)) = .ok p)
     (h2 : (arg a "iis" (.float 0)).num? = some w2) (h3 : (arg a "rt" (.float 0)).num? = some w3)
     (h : BadLimits a) : Rejects (mkComp .pmux name a) := by
@@ -360,7 +375,7 @@ theorem reject_limits_rectifier_diode (name : String) (a : Args α) {ps : Param 
   simp only [hnz, if_true, hps, ex_bind_ok, absArg_num h3, he, ex_bind_error]
   exact ⟨e, rfl, hc⟩
 
-theorem reject_limits_rectifier_mosfet (name : String) (a : Args α) {rr : α × Option (List α)} {w2 w3 : α}
+theorem reject_limits_rectifier_mosfet (name : String) (a : Args α) {rr : α × Option (List α) × PV α} {w2 w3 : α}
     {p : Param α}
     (hvd : (arg a "vdrop" (.float 0)).num? = some 0) (h1 : mkRsRect (arg a "rs" (.float 0)) = .ok rr)
     (hps : mkIg (arg a "ig" (.float 0)) = .ok p) (h2 : (arg a "iq" (.float 0)).num? = some w2)
@@ -373,44 +388,18 @@ theorem reject_limits_rectifier_mosfet (name : String) (a : Args α) {rr : α ×
 
 /-! ## B. accepted ⇒ physically meaningful -/
 
-/-- every 2-D table is within the conditioning of property C10: io axis non-negative (finding F11 is about a
-    negative one), vi axis strictly increasing and non-negative -/
-def Tab2Conditioned (p : Param α) : Prop :=
-  ∀ xs ys f d, p = .tab2 xs ys f d → (∀ x ∈ xs, 0 ≤ x) ∧ ys.Pairwise (· < ·) ∧ ∀ y ∈ ys, 0 ≤ y
-
-/-- the `rs` argument carries no negative number (scalar: the exclusion of findings F08 / F12; list: the
-    entries are stored as given and used through `abs`) -/
-def RsArgNonneg (a : Args α) : Prop :=
-  (∀ v, (arg a "rs" (.float 0)).num? = some v → 0 ≤ v) ∧
-  (∀ l, arg a "rs" (.float 0) = .list l → ∀ x ∈ l, ∀ v, x.num? = some v → 0 ≤ v)
-
 theorem mem_flatten_of {rows : List (List α)} {row : List α} {v : α} (hr : row ∈ rows) (hv : v ∈ row) :
     v ∈ rows.flatten := List.mem_flatten.mpr ⟨row, hr, hv⟩
 
-theorem mkTable_grid {d : List (String × PV α)} {z : String} {chk : List α → Except Err Unit}
-    {xs ys : List α} {f : List (List α)} {dg : List (List Bool)} {vals : List α}
-    (h : mkTable d z chk = .ok (.tab2 xs ys f dg, vals)) (ht : Tab2Conditioned (.tab2 xs ys f dg)) :
-    Grid xs ys f ∧ (∀ row ∈ f, row.length = xs.length) ∧ vals = f.flatten ∧ chk vals = .ok () := by
-  obtain ⟨ios, rows, hinc, hchk, hv, hcols, hp⟩ := mkTable_ok h
-  rcases hp with ⟨_, hp⟩ | ⟨vis, hlen, h2, h3, hp⟩
-  · cases hp
-  · cases hp
-    obtain ⟨a, b, c⟩ := ht _ _ _ _ rfl
-    exact ⟨⟨hinc, a, b, c, h2, h3, hlen⟩, hcols, hv, hchk⟩
-
 theorem mkTable_nonneg {d : List (String × PV α)} {z : String} {chk : List α → Except Err Unit}
-    {p : Param α} {vals : List α} (h : mkTable d z chk = .ok (p, vals)) (ht : Tab2Conditioned p) :
-    p.Nonneg := by
-  cases p with
-  | const c =>
-    obtain ⟨_, _, _, _, _, _, hp⟩ := mkTable_ok h
-    rcases hp with ⟨_, hp⟩ | ⟨_, _, _, _, hp⟩ <;> cases hp
-  | tab1 xs fs => exact tab1_nonneg xs fs
-  | tab2 xs ys f dg => exact tab2_nonneg (mkTable_grid h ht).1 dg
+    {p : Param α} {vals : List α} (h : mkTable d z chk = .ok (p, vals)) : p.Nonneg := by
+  obtain ⟨ios, rows, hinc, _, _, hcols, hp⟩ := mkTable_ok h
+  rcases hp with ⟨_, rfl⟩ | ⟨vis, hlen, h2, h3, rfl⟩
+  · exact tab1_nonneg _ _
+  · exact tab2_nonneg_any ios vis rows _ hinc h2 h3 hlen hcols
 
 theorem mkTable_unit {d : List (String × PV α)} {p : Param α} {vals : List α}
-    (h : mkTable d "eff" chkEff = .ok (p, vals)) (ht : Tab2Conditioned p) (x y : α) :
-    0 < p.interp x y ∧ p.interp x y ≤ 1 := by
+    (h : mkTable d "eff" chkEff = .ok (p, vals)) (x y : α) : 0 < p.interp x y ∧ p.interp x y ≤ 1 := by
   obtain ⟨ios, rows, hinc, hchk, hv, hcols, hp⟩ := mkTable_ok h
   obtain ⟨hne, hall⟩ := chkEff_ok hchk
   rcases hp with ⟨h1, rfl⟩ | ⟨vis, hlen, h2, h3, rfl⟩
@@ -427,16 +416,14 @@ theorem mkTable_unit {d : List (String × PV α)} {p : Param α} {vals : List α
     apply tab1_unit hl.symm
     · intro e; rw [e] at hl; simp at hl; rw [hvr] at hne; exact hne hl
     · intro v hv'; exact hall v (by rw [hvr]; exact hv')
-  · obtain ⟨g, hc, _, _⟩ := mkTable_grid h ht
-    exact tab2_unit g _ hc (fun row hr v hv' => hall v (by rw [hv]; exact mem_flatten_of hr hv')) x y
+  · exact tab2_unit_any ios vis rows _ hinc h2 h3 hlen hcols (hv ▸ hne) (fun v hv' => hall v (hv ▸ hv')) x y
 
-theorem mkIg_nonneg {ig : PV α} {p : Param α} (h : mkIg ig = .ok p) (ht : Tab2Conditioned p) : p.Nonneg := by
+theorem mkIg_nonneg {ig : PV α} {p : Param α} (h : mkIg ig = .ok p) : p.Nonneg := by
   rcases mkIg_ok h with ⟨v, _, rfl⟩ | ⟨d, vals, _, ht'⟩
   · exact const_nonneg (abs_nonneg v)
-  · exact mkTable_nonneg ht' ht
+  · exact mkTable_nonneg ht'
 
-theorem mkVdrop_nonneg {vd : PV α} {ps : Param α × PV α} (h : mkVdrop vd = .ok ps)
-    (ht : Tab2Conditioned ps.1) : ps.1.Nonneg := by
+theorem mkVdrop_nonneg {vd : PV α} {ps : Param α × PV α} (h : mkVdrop vd = .ok ps) : ps.1.Nonneg := by
   unfold mkVdrop at h
   cases vd with
   | dict d =>
@@ -444,14 +431,14 @@ theorem mkVdrop_nonneg {vd : PV α} {ps : Param α × PV α} (h : mkVdrop vd = .
     obtain ⟨pv, hpv, h⟩ := ex_bind_eq_ok h
     obtain ⟨p', vals⟩ := pv
     simp at h; subst h
-    exact mkTable_nonneg hpv ht
+    exact mkTable_nonneg hpv
   | _ =>
     simp only at h
     obtain ⟨v, hv, h⟩ := ex_bind_eq_ok h
     simp at h; subst h
     exact const_nonneg (absArg_nonneg hv)
 
-theorem mkEff_unit {eff : PV α} {p : Param α} (h : mkEff eff = .ok p) (ht : Tab2Conditioned p) (x y : α) :
+theorem mkEff_unit {eff : PV α} {p : Param α} (h : mkEff eff = .ok p) (x y : α) :
     0 < p.interp x y ∧ p.interp x y ≤ 1 := by
   unfold mkEff at h
   cases eff with
@@ -460,7 +447,7 @@ theorem mkEff_unit {eff : PV α} {p : Param α} (h : mkEff eff = .ok p) (ht : Ta
     obtain ⟨pv, hpv, h⟩ := ex_bind_eq_ok h
     obtain ⟨p', vals⟩ := pv
     simp at h; subst h
-    exact mkTable_unit hpv ht x y
+    exact mkTable_unit hpv x y
   | _ =>
     simp only at h
     obtain ⟨e, he, h⟩ := ex_bind_eq_ok h
@@ -473,59 +460,47 @@ theorem mkEff_unit {eff : PV α} {p : Param α} (h : mkEff eff = .ok p) (ht : Ta
         simp at h h0; subst h
         exact ⟨h0, not_lt.mp h1⟩
 
-theorem mkRsMux_ok {x : PV α} {rr : α × Option (List α)} (h : mkRsMux x = .ok rr) :
-    (∃ l, x = .list l ∧ rr = (0, some (l.filterMap PV.num?))) ∨ (∃ v, x.num? = some v ∧ rr = (v, none)) := by
+/-- the scalar resistance a PMux stores is a magnitude -/
+theorem mkRsMux_nonneg {x : PV α} {rr : α × Option (List α) × PV α} (h : mkRsMux x = .ok rr) : 0 ≤ rr.1 := by
   unfold mkRsMux at h
   cases x with
   | list l =>
-    left
     simp only at h
     by_cases hl : l.all PV.isNumber = true
-    · rw [if_pos hl] at h; simp at h; exact ⟨l, rfl, h.symm⟩
+    · rw [if_pos hl] at h; simp at h; rw [← h]
     · rw [if_neg hl] at h; simp at h
   | _ =>
-    right
     simp only at h
-    obtain ⟨_, _, h⟩ := ex_bind_eq_ok h
     obtain ⟨v, hv, h⟩ := ex_bind_eq_ok h
-    simp at h
-    exact ⟨v, numArg_ok hv, h.symm⟩
+    simp at h; rw [← h]; exact absArg_nonneg hv
 
-theorem mkRsRect_ok {x : PV α} {rr : α × Option (List α)} (h : mkRsRect x = .ok rr) :
-    (∃ l, x = .list l ∧ rr = (0, some (l.filterMap PV.num?))) ∨ (∃ v, x.num? = some v ∧ rr = (v, none)) := by
+theorem mkRsRect_nonneg {x : PV α} {rr : α × Option (List α) × PV α} (h : mkRsRect x = .ok rr) : 0 ≤ rr.1 := by
   unfold mkRsRect at h
   cases x with
   | list l =>
-    left
     simp only at h
     by_cases hl : l.all PV.isNumber = true
-    · rw [if_pos hl] at h; simp at h; exact ⟨l, rfl, h.symm⟩
+    · rw [if_pos hl] at h; simp at h; rw [← h]
     · rw [if_neg hl] at h; simp at h
   | _ =>
-    right
     simp only at h
     split_ifs at h with hn
     obtain ⟨v, hv, h⟩ := ex_bind_eq_ok h
-    simp at h
-    exact ⟨v, numArg_ok hv, h.symm⟩
+    simp at h; rw [← h]; exact absArg_nonneg hv
 
-theorem rs_facts {a : Args α} (hrs : RsArgNonneg a) {rr : α × Option (List α)}
-    (h : (∃ l, arg a "rs" (.float 0) = .list l ∧ rr = (0, some (l.filterMap PV.num?))) ∨
-         (∃ v, (arg a "rs" (.float 0)).num? = some v ∧ rr = (v, none))) :
-    0 ≤ rr.1 ∧ ∀ l, rr.2 = some l → ∀ x ∈ l, (0 : α) ≤ x := by
-  rcases h with ⟨l, hl, rfl⟩ | ⟨v, hv, rfl⟩
-  · refine ⟨le_refl _, ?_⟩
-    intro l' e x hx
-    simp only [Option.some.injEq] at e; subst e
-    obtain ⟨y, hy, hyx⟩ := List.mem_filterMap.mp hx
-    exact hrs.2 l hl y hy x hyx
-  · exact ⟨hrs.1 v hv, by intro l e; cases e⟩
+/-- the resistance applied for mux input `k`: the stored scalar, or the magnitude of the list entry -/
+theorem muxRs_nonneg (c : Comp α) (h : 0 ≤ c.rs) (k : Nat) : 0 ≤ c.muxRs k := by
+  unfold Comp.muxRs
+  cases c.rsList with
+  | none => exact h
+  | some l => simp only [nabs_eq_abs]; exact abs_nonneg _
 
-/-- **accepted ⇒ physical**, with the two exclusions spelled out. -/
-theorem accepted_normalised_partial (kind : Kind) (name : String) (a : Args α) (c : Comp α)
-    (h : mkComp kind name a = .ok c)
-    (hrs : kind = .pmux ∨ kind = .rectifier → RsArgNonneg a)
-    (ht : Tab2Conditioned c.par) : c.Phys := by
+/-- **accepted ⇒ physical** — every component a constructor returns satisfies `Comp.Phys`: resistances,
+    currents, powers, drops and thermal resistances are stored (or, for the entries of an `rs` list,
+    used) as magnitudes, every table lookup is `≥ 0`, efficiencies lie in (0, 1], a regulator's dropout is
+    below `|vo|`, a load resistance is non-zero. -/
+theorem accepted_normalised (kind : Kind) (name : String) (a : Args α) (c : Comp α)
+    (h : mkComp kind name a = .ok c) : c.Phys := by
   unfold mkComp at h
   cases kind <;> simp only at h
   case source =>
@@ -534,8 +509,8 @@ theorem accepted_normalised_partial (kind : Kind) (name : String) (a : Args α) 
     obtain ⟨lim, hlim, h⟩ := ex_bind_eq_ok h
     obtain ⟨vov, hvov, h⟩ := ex_bind_eq_ok h
     simp only [ex_pure, Except.ok.injEq] at h; subst h
-    exact ⟨absArg_nonneg hr, (fun l e => by cases e), le_refl _, le_refl _, le_refl _, le_refl _, le_refl _,
-      le_refl _, le_refl _, const_nonneg (le_refl _), (fun e => by cases e), (fun e => by cases e),
+    exact ⟨absArg_nonneg hr, muxRs_nonneg _ (absArg_nonneg hr), le_refl _, le_refl _, le_refl _, le_refl _,
+      le_refl _, le_refl _, le_refl _, const_nonneg (le_refl _), (fun e => by cases e), (fun e => by cases e),
       (fun e => by cases e)⟩
   case pload =>
     obtain ⟨x, hx, h⟩ := ex_bind_eq_ok h
@@ -544,7 +519,7 @@ theorem accepted_normalised_partial (kind : Kind) (name : String) (a : Args α) 
     obtain ⟨rt, h3, h⟩ := ex_bind_eq_ok h
     obtain ⟨lim, hlim, h⟩ := ex_bind_eq_ok h
     simp only [ex_pure, Except.ok.injEq] at h; subst h
-    exact ⟨le_refl _, (fun l e => by cases e), le_refl _, le_refl _, le_refl _, absArg_nonneg h3,
+    exact ⟨le_refl _, muxRs_nonneg _ (le_refl _), le_refl _, le_refl _, le_refl _, absArg_nonneg h3,
       absArg_nonneg h1, absArg_nonneg h2, le_refl _, const_nonneg (le_refl _), (fun e => by cases e),
       (fun e => by cases e), (fun e => by cases e)⟩
   case iload =>
@@ -554,7 +529,7 @@ theorem accepted_normalised_partial (kind : Kind) (name : String) (a : Args α) 
     obtain ⟨iis, h2, h⟩ := ex_bind_eq_ok h
     obtain ⟨rt, h3, h⟩ := ex_bind_eq_ok h
     simp only [ex_pure, Except.ok.injEq] at h; subst h
-    exact ⟨le_refl _, (fun l e => by cases e), le_refl _, le_refl _, absArg_nonneg h2, absArg_nonneg h3,
+    exact ⟨le_refl _, muxRs_nonneg _ (le_refl _), le_refl _, le_refl _, absArg_nonneg h2, absArg_nonneg h3,
       le_refl _, le_refl _, absArg_nonneg h1, const_nonneg (le_refl _), (fun e => by cases e),
       (fun e => by cases e), (fun e => by cases e)⟩
   case rload =>
@@ -567,8 +542,8 @@ theorem accepted_normalised_partial (kind : Kind) (name : String) (a : Args α) 
       obtain ⟨lim, hlim, h⟩ := ex_bind_eq_ok h
       simp only [ex_pure, Except.ok.injEq] at h; subst h
       have hne : rs ≠ 0 := by intro e; exact hz ((isZ_iff _).mpr e)
-      exact ⟨absArg_nonneg h1, (fun l e => by cases e), le_refl _, le_refl _, le_refl _, absArg_nonneg h3,
-        le_refl _, le_refl _, le_refl _, const_nonneg (le_refl _), (fun e => by cases e),
+      exact ⟨absArg_nonneg h1, muxRs_nonneg _ (absArg_nonneg h1), le_refl _, le_refl _, le_refl _,
+        absArg_nonneg h3, le_refl _, le_refl _, le_refl _, const_nonneg (le_refl _), (fun e => by cases e),
         (fun e => by cases e), fun _ => lt_of_le_of_ne (absArg_nonneg h1) (Ne.symm hne)⟩
   case rloss =>
     obtain ⟨x, hx, h⟩ := ex_bind_eq_ok h
@@ -576,8 +551,8 @@ theorem accepted_normalised_partial (kind : Kind) (name : String) (a : Args α) 
     obtain ⟨rt, h3, h⟩ := ex_bind_eq_ok h
     obtain ⟨lim, hlim, h⟩ := ex_bind_eq_ok h
     simp only [ex_pure, Except.ok.injEq] at h; subst h
-    exact ⟨absArg_nonneg h1, (fun l e => by cases e), le_refl _, le_refl _, le_refl _, absArg_nonneg h3,
-      le_refl _, le_refl _, le_refl _, const_nonneg (le_refl _), (fun e => by cases e),
+    exact ⟨absArg_nonneg h1, muxRs_nonneg _ (absArg_nonneg h1), le_refl _, le_refl _, le_refl _,
+      absArg_nonneg h3, le_refl _, le_refl _, le_refl _, const_nonneg (le_refl _), (fun e => by cases e),
       (fun e => by cases e), (fun e => by cases e)⟩
   case vloss =>
     obtain ⟨x, hx, h⟩ := ex_bind_eq_ok h
@@ -585,8 +560,8 @@ theorem accepted_normalised_partial (kind : Kind) (name : String) (a : Args α) 
     obtain ⟨ps, hps, h⟩ := ex_bind_eq_ok h
     obtain ⟨lim, hlim, h⟩ := ex_bind_eq_ok h
     simp only [ex_pure, Except.ok.injEq] at h; subst h
-    exact ⟨le_refl _, (fun l e => by cases e), le_refl _, le_refl _, le_refl _, absArg_nonneg h3,
-      le_refl _, le_refl _, le_refl _, mkVdrop_nonneg hps ht, (fun e => by cases e),
+    exact ⟨le_refl _, muxRs_nonneg _ (le_refl _), le_refl _, le_refl _, le_refl _, absArg_nonneg h3,
+      le_refl _, le_refl _, le_refl _, mkVdrop_nonneg hps, (fun e => by cases e),
       (fun e => by cases e), (fun e => by cases e)⟩
   case converter =>
     obtain ⟨vo, hvo, h⟩ := ex_bind_eq_ok h
@@ -598,9 +573,9 @@ theorem accepted_normalised_partial (kind : Kind) (name : String) (a : Args α) 
     obtain ⟨lim, hlim, h⟩ := ex_bind_eq_ok h
     obtain ⟨vov, hvov, h⟩ := ex_bind_eq_ok h
     simp only [ex_pure, Except.ok.injEq] at h; subst h
-    exact ⟨le_refl _, (fun l e => by cases e), le_refl _, absArg_nonneg h1, absArg_nonneg h2,
-      absArg_nonneg h3, le_refl _, le_refl _, le_refl _, fun x y => (mkEff_unit hpar ht x y).1.le,
-      fun _ x y => mkEff_unit hpar ht x y, (fun e => by cases e), (fun e => by cases e)⟩
+    exact ⟨le_refl _, muxRs_nonneg _ (le_refl _), le_refl _, absArg_nonneg h1, absArg_nonneg h2,
+      absArg_nonneg h3, le_refl _, le_refl _, le_refl _, fun x y => (mkEff_unit hpar x y).1.le,
+      fun _ x y => mkEff_unit hpar x y, (fun e => by cases e), (fun e => by cases e)⟩
   case linreg =>
     obtain ⟨vo, hvo, h⟩ := ex_bind_eq_ok h
     obtain ⟨vov, hvov, h⟩ := ex_bind_eq_ok h
@@ -615,8 +590,8 @@ theorem accepted_normalised_partial (kind : Kind) (name : String) (a : Args α) 
       obtain ⟨lim, hlim, h⟩ := ex_bind_eq_ok h
       simp only [ex_pure, Except.ok.injEq] at h; subst h
       simp only [Bool.not_eq_true', decide_eq_false_iff_not, not_not] at hz
-      exact ⟨le_refl _, (fun l e => by cases e), absArg_nonneg hvd, le_refl _, absArg_nonneg h2,
-        absArg_nonneg h3, le_refl _, le_refl _, le_refl _, mkIg_nonneg hpar ht, (fun e => by cases e),
+      exact ⟨le_refl _, muxRs_nonneg _ (le_refl _), absArg_nonneg hvd, le_refl _, absArg_nonneg h2,
+        absArg_nonneg h3, le_refl _, le_refl _, le_refl _, mkIg_nonneg hpar, (fun e => by cases e),
         fun _ => hz, (fun e => by cases e)⟩
   case pswitch =>
     obtain ⟨rs, h1, h⟩ := ex_bind_eq_ok h
@@ -625,8 +600,8 @@ theorem accepted_normalised_partial (kind : Kind) (name : String) (a : Args α) 
     obtain ⟨rt, h3, h⟩ := ex_bind_eq_ok h
     obtain ⟨lim, hlim, h⟩ := ex_bind_eq_ok h
     simp only [ex_pure, Except.ok.injEq] at h; subst h
-    exact ⟨absArg_nonneg h1, (fun l e => by cases e), le_refl _, le_refl _, absArg_nonneg h2,
-      absArg_nonneg h3, le_refl _, le_refl _, le_refl _, mkIg_nonneg hpar ht, (fun e => by cases e),
+    exact ⟨absArg_nonneg h1, muxRs_nonneg _ (absArg_nonneg h1), le_refl _, le_refl _, absArg_nonneg h2,
+      absArg_nonneg h3, le_refl _, le_refl _, le_refl _, mkIg_nonneg hpar, (fun e => by cases e),
       (fun e => by cases e), (fun e => by cases e)⟩
   case pmux =>
     obtain ⟨rr, hrr, h⟩ := ex_bind_eq_ok h
@@ -635,9 +610,8 @@ theorem accepted_normalised_partial (kind : Kind) (name : String) (a : Args α) 
     obtain ⟨rt, h3, h⟩ := ex_bind_eq_ok h
     obtain ⟨lim, hlim, h⟩ := ex_bind_eq_ok h
     simp only [ex_pure, Except.ok.injEq] at h; subst h
-    obtain ⟨r1, r2⟩ := rs_facts (hrs (Or.inl rfl)) (mkRsMux_ok hrr)
-    exact ⟨r1, r2, le_refl _, le_refl _, absArg_nonneg h2,
-      absArg_nonneg h3, le_refl _, le_refl _, le_refl _, mkIg_nonneg hpar ht, (fun e => by cases e),
+    exact ⟨mkRsMux_nonneg hrr, muxRs_nonneg _ (mkRsMux_nonneg hrr), le_refl _, le_refl _, absArg_nonneg h2,
+      absArg_nonneg h3, le_refl _, le_refl _, le_refl _, mkIg_nonneg hpar, (fun e => by cases e),
       (fun e => by cases e), (fun e => by cases e)⟩
   case rectifier =>
     by_cases hd : nonZeroArg (arg a "vdrop" (PV.float 0)) = true
@@ -646,8 +620,8 @@ theorem accepted_normalised_partial (kind : Kind) (name : String) (a : Args α) 
       obtain ⟨rt, h3, h⟩ := ex_bind_eq_ok h
       obtain ⟨lim, hlim, h⟩ := ex_bind_eq_ok h
       simp only [ex_pure, Except.ok.injEq] at h; subst h
-      exact ⟨le_refl _, (fun l e => by cases e), le_refl _, le_refl _, le_refl _, absArg_nonneg h3,
-        le_refl _, le_refl _, le_refl _, mkVdrop_nonneg hps ht, (fun e => by cases e),
+      exact ⟨le_refl _, muxRs_nonneg _ (le_refl _), le_refl _, le_refl _, le_refl _, absArg_nonneg h3,
+        le_refl _, le_refl _, le_refl _, mkVdrop_nonneg hps, (fun e => by cases e),
         (fun e => by cases e), (fun e => by cases e)⟩
     · rw [if_neg hd] at h
       obtain ⟨rr, hrr, h⟩ := ex_bind_eq_ok h
@@ -656,41 +630,34 @@ theorem accepted_normalised_partial (kind : Kind) (name : String) (a : Args α) 
       obtain ⟨rt, h3, h⟩ := ex_bind_eq_ok h
       obtain ⟨lim, hlim, h⟩ := ex_bind_eq_ok h
       simp only [ex_pure, Except.ok.injEq] at h; subst h
-      obtain ⟨r1, r2⟩ := rs_facts (hrs (Or.inr rfl)) (mkRsRect_ok hrr)
-      exact ⟨r1, r2, le_refl _, absArg_nonneg h1, le_refl _,
-        absArg_nonneg h3, le_refl _, le_refl _, le_refl _, mkIg_nonneg hpar ht, (fun e => by cases e),
+      exact ⟨mkRsRect_nonneg hrr, muxRs_nonneg _ (mkRsRect_nonneg hrr), le_refl _, absArg_nonneg h1, le_refl _,
+        absArg_nonneg h3, le_refl _, le_refl _, le_refl _, mkIg_nonneg hpar, (fun e => by cases e),
         (fun e => by cases e), (fun e => by cases e)⟩
 
-/-- the property's clause at full strength: every accepted component is physical -/
-def accepted_normalised_full : Prop :=
-  ∀ (kind : Kind) (name : String) (a : Args ℚ) (c : Comp ℚ), mkComp kind name a = .ok c → c.Phys
+/-- regression (former finding F08): `PMux("m", rs=-1)` stores the magnitude -/
+example : ∃ c : Comp ℚ, mkComp .pmux "m" [("rs", PV.int (-1 : ℚ))] = .ok c ∧ c.rs = 1 ∧ c.Phys :=
+  ⟨_, rfl, by norm_num [nabs], accepted_normalised .pmux "m" [("rs", PV.int (-1 : ℚ))] _ rfl⟩
 
-/-- It is FALSE for the code as it stands: `PMux("m", rs=-1)` is accepted and stores `rs = -1` (the
-    `abs(rs)` assignment of components.py:1541-1545 is overwritten by `self._params["rs"] = rs`);
-    finding F08. -/
-theorem accepted_normalised_full_fails : ¬ accepted_normalised_full := by
-  intro h
-  have hc := h .pmux "m" [("rs", PV.int (-1 : ℚ))] _ rfl
-  have := hc.rs
-  norm_num at this
+/-- regression (former finding F12): the MOSFET `Rectifier("r", rs=-1)` stores the magnitude -/
+example : ∃ c : Comp ℚ, mkComp .rectifier "r" [("rs", PV.int (-1 : ℚ))] = .ok c ∧ c.rs = 1 ∧ c.Phys :=
+  ⟨_, rfl, by norm_num [nabs], accepted_normalised .rectifier "r" [("rs", PV.int (-1 : ℚ))] _ rfl⟩
 
-/-- the same for the MOSFET `Rectifier("r", rs=-1)` (components.py:1740-1746); finding F12. -/
-theorem accepted_normalised_full_fails_rectifier :
-    ∃ c : Comp ℚ, mkComp .rectifier "r" [("rs", PV.int (-1 : ℚ))] = .ok c ∧ ¬ c.Phys := by
-  refine ⟨_, rfl, ?_⟩
-  intro hc
-  have := hc.rs
-  norm_num at this
-
-/-- non-vacuity of `accepted_normalised_partial`: an accepted LinReg with every sign flipped -/
+/-- non-vacuity of `accepted_normalised`: an accepted LinReg with every sign flipped -/
 def exLinregArgs : Args ℚ :=
   [("vo", PV.int (-3)), ("vdrop", PV.int (-1)), ("ig", PV.int (-2)), ("rt", PV.int (-20))]
 
-example : ∃ c : Comp ℚ, mkComp .linreg "l" exLinregArgs = .ok c ∧ c.Phys ∧ c.vdrop = 1 ∧ c.rt = 20 := by
-  refine ⟨_, rfl, ?_, by norm_num [nabs], by norm_num [nabs]⟩
-  apply accepted_normalised_partial .linreg "l" exLinregArgs _ rfl
-  · intro h; rcases h with h | h <;> cases h
-  · intro xs ys f d e; cases e
+example : ∃ c : Comp ℚ, mkComp .linreg "l" exLinregArgs = .ok c ∧ c.Phys ∧ c.vdrop = 1 ∧ c.rt = 20 :=
+  ⟨_, rfl, accepted_normalised .linreg "l" exLinregArgs _ rfl, by norm_num [nabs], by norm_num [nabs]⟩
+
+/-- … and a PMux with a 2-D ground-current table whose vi rows are given in decreasing order and whose first
+    io entry carries a negative sign -/
+def exMuxArgs : Args ℚ :=
+  [("rs", PV.list [PV.int (-1), PV.int 2]),
+   ("ig", PV.dict [("vi", .list [.int 12, .int (-5)]), ("io", .list [.int (-1), .int 2, .int 3]),
+                   ("ig", .list [.list [.int 1, .int 2, .int 3], .list [.int 4, .int 5, .int 6]])])]
+
+example : ∃ c : Comp ℚ, mkComp .pmux "m" exMuxArgs = .ok c ∧ c.Phys :=
+  ⟨_, rfl, accepted_normalised .pmux "m" exMuxArgs _ rfl⟩
 
 /-! ## C. sign insensitivity -/
 
@@ -715,8 +682,8 @@ def magArgs : Kind → List String
   | .converter => ["iq", "iis", "rt"]
   | .linreg => ["vdrop", "iis", "rt"]
   | .pswitch => ["rs", "iis", "rt"]
-  | .pmux => ["iis", "rt"]
-  | .rectifier => ["vdrop", "iq", "rt"]
+  | .pmux => ["rs", "iis", "rt"]
+  | .rectifier => ["vdrop", "rs", "iq", "rt"]
 
 theorem isZ_neg (v : α) : isZ (-v) = isZ v := by
   rw [Bool.eq_iff_iff, isZ_iff, isZ_iff, neg_eq_zero]
@@ -732,6 +699,12 @@ theorem isZ_neg (v : α) : isZ (-v) = isZ v := by
 
 @[simp] theorem mkIg_negNum (x : PV α) : mkIg (negNum x) = mkIg x := by
   cases x <;> simp [negNum, mkIg, absArg, PV.num?]
+
+@[simp] theorem mkRsMux_negNum (x : PV α) : mkRsMux (negNum x) = mkRsMux x := by
+  cases x <;> simp [negNum, mkRsMux, absArg, PV.num?]
+
+@[simp] theorem mkRsRect_negNum (x : PV α) : mkRsRect (negNum x) = mkRsRect x := by
+  cases x <;> simp [negNum, mkRsRect, absArg, PV.num?, PV.isNumber]
 
 section variant
 variable {ks : List String} {a b : Args α} (h : SignVariant ks a b)
@@ -819,7 +792,10 @@ theorem sign_insensitive (kind : Kind) (name : String) (a b : Args α)
     rw [sv_abs h "rs", sv_arg_eq h (k := "ig") (by decide), sv_abs h "iis", sv_abs h "rt",
       sv_arg_eq h (k := "limits") (by decide)]
   case pmux =>
-    rw [sv_arg_eq h (k := "rs") (by decide), sv_arg_eq h (k := "ig") (by decide), sv_abs h "iis",
+    have hrs : mkRsMux (arg b "rs" (.float 0)) = mkRsMux (arg a "rs" (.float 0)) := by
+      rcases sv_arg h "rs" (.float 0) with e | ⟨_, e⟩ <;> rw [e]
+      exact mkRsMux_negNum _
+    rw [hrs, sv_arg_eq h (k := "ig") (by decide), sv_abs h "iis",
       sv_abs h "rt", sv_arg_eq h (k := "limits") (by decide)]
   case rectifier =>
     have hnz : nonZeroArg (arg b "vdrop" (.float 0)) = nonZeroArg (arg a "vdrop" (.float 0)) := by
@@ -828,8 +804,11 @@ theorem sign_insensitive (kind : Kind) (name : String) (a b : Args α)
     have hvd : mkVdrop (arg b "vdrop" (.float 0)) = mkVdrop (arg a "vdrop" (.float 0)) := by
       rcases sv_arg h "vdrop" (.float 0) with e | ⟨_, e⟩ <;> rw [e]
       exact mkVdrop_negNum _
+    have hrs : mkRsRect (arg b "rs" (.float 0)) = mkRsRect (arg a "rs" (.float 0)) := by
+      rcases sv_arg h "rs" (.float 0) with e | ⟨_, e⟩ <;> rw [e]
+      exact mkRsRect_negNum _
     rw [hnz, hvd, sv_abs h "rt", sv_arg_eq h (k := "limits") (by decide),
-      sv_arg_eq h (k := "rs") (by decide), sv_arg_eq h (k := "ig") (by decide), sv_abs h "iq"]
+      hrs, sv_arg_eq h (k := "ig") (by decide), sv_abs h "iq"]
 
 /-- the component without the displayed `_params` dictionary: everything the laws read -/
 def beh (c : Comp α) : Comp α := { c with params := [] }
@@ -842,7 +821,8 @@ theorem bind_congr_beh {β : Type} (x : Except Err β) (f g : β → Except Err 
 
 /-- **sign insensitivity of the ground current** (`ig`, and the deprecated `iq` of a LinReg): it is stored
     as given (`self._params["ig"] = ig`), only its magnitude is ever used, so negating it changes nothing
-    but the displayed `_params` entry.  (`_partial`: equality up to `_params`.) -/
+    but the displayed `_params` entry.  (`_partial`: equality up to `_params`; full equality is false:
+    `ig_display_differs` below.) -/
 theorem sign_insensitive_ig_partial (kind : Kind) (name : String) (a b : Args α)
     (hk : kind = .linreg ∨ kind = .pswitch ∨ kind = .pmux ∨ kind = .rectifier)
     (h : SignVariant ["ig", "iq"] a b) :
@@ -926,25 +906,18 @@ theorem sign_insensitive_ig_partial (kind : Kind) (name : String) (a b : Args α
       apply bind_congr_beh; intro lim
       rfl
 
-/-- sign insensitivity for EVERY magnitude-type argument, the scalar `rs` of PMux / Rectifier included -/
-def sign_insensitive_full : Prop :=
-  ∀ (kind : Kind) (name : String) (a b : Args ℚ), SignVariant ("rs" :: "ig" :: "iq" :: magArgs kind) a b →
-    (mkComp kind name b).map beh = (mkComp kind name a).map beh
-
-/-- It FAILS for the scalar `rs` of a PMux: `PMux(rs=1)` and `PMux(rs=-1)` are different components
-    (finding F08; the MOSFET Rectifier likewise, F12). -/
-theorem sign_insensitive_rs_fails : ¬ sign_insensitive_full := by
+/-- why `sign_insensitive_ig_partial` stops at `_params`: the stored entry is the raw argument -/
+theorem ig_display_differs :
+    mkComp .pswitch "s" ([("ig", PV.int (-2))] : Args ℚ) ≠ mkComp .pswitch "s" [("ig", PV.int 2)] := by
   intro h
-  have := h .pmux "m" [("rs", PV.int 1)] [("rs", PV.int (-1))] (by
-    intro k
-    by_cases hk : k = "rs"
-    · subst hk; right; exact ⟨by simp, rfl⟩
-    · left
-      have : (k == "rs") = false := by simpa using hk
-      simp [List.lookup, this])
-  have h2 := congrArg (fun r => match r with | Except.ok c => Comp.rs c | _ => 0) this
-  change (-1 : ℚ) = 1 at h2
+  have h2 := congrArg (fun r => match r with
+    | Except.ok c => (match c.params.lookup "ig" with | some (PV.int v) => v | _ => 0) | _ => 0) h
+  change (-2 : ℚ) = 2 at h2
   norm_num at h2
+
+/-- regression (former findings F08 / F12): the scalar `rs` of a PMux / MOSFET Rectifier is sign-insensitive -/
+example : mkComp .pmux "m" ([("rs", PV.int (-1))] : Args ℚ) = mkComp .pmux "m" [("rs", PV.float 1)] := rfl
+example : mkComp .rectifier "m" ([("rs", PV.int (-1))] : Args ℚ) = mkComp .rectifier "m" [("rs", PV.float 1)] := rfl
 
 /-- non-vacuity of `sign_insensitive`: `RLoss(rs=-2, rt=5)` is `RLoss(rs=2, rt=-5)` -/
 example : mkComp .rloss "r" [("rs", PV.int (-2 : ℚ)), ("rt", PV.int 5)]
@@ -1001,7 +974,7 @@ def tEffBad : List (String × PV ℚ) :=
 theorem exNoVi : TableRejects (mkTable tIgNoVi "ig" chkIg) := table_missing_key _ _ _ (Or.inl rfl)
 
 theorem exIoBad : TableRejects (mkTable tIgIo "ig" chkIg) :=
-  table_io_not_increasing (ios := [0, 2, 2]) chkIg rfl rfl rfl rfl (by norm_num)
+  table_io_not_increasing (ios := [0, 2, 2]) chkIg rfl rfl rfl rfl (by norm_num [nabs])
 
 theorem exShape : TableRejects (mkTable tIgShape "ig" chkIg) :=
   table_shape_mismatch (ios := [0, 1, 2]) chkIg rfl rfl rfl rfl (by simp)
@@ -1024,7 +997,7 @@ example : Rejects (mkComp .pswitch "s" ([("ig", .dict tIgNeg)] : Args ℚ)) :=
   reject_table_pswitch "s" _ (w := 0) rfl rfl exIgNeg
 
 example : Rejects (mkComp .pmux "m" ([("ig", .dict tIgIo)] : Args ℚ)) :=
-  reject_table_pmux "m" _ (rr := (0, none)) rfl rfl exIoBad
+  reject_table_pmux "m" _ (rr := (nabs 0, none, .float (nabs 0))) rfl rfl exIoBad
 
 example : Rejects (mkComp .linreg "l" ([("vo", .int 3), ("ig", .dict tIgShape)] : Args ℚ)) :=
   reject_table_linreg "l" _ (vo := .int 3) (v := 3) (dr := 0) rfl rfl rfl (by norm_num) rfl rfl exShape
@@ -1034,13 +1007,32 @@ example : Rejects (mkComp .linreg "l" ([("vo", .int 3),
                   ("iq", .list [.list [.int 1, .int 2, .int 3]])])] : Args ℚ)) :=
   reject_table_linreg_iq "l" _ (vo := .int 3) (v := 3) (dr := 0) (z := .list [.list [.int 1, .int 2, .int 3]])
     rfl rfl rfl (by norm_num) rfl rfl
-    (table_io_not_increasing (ios := [0, 2, 2]) chkIg rfl rfl rfl rfl (by norm_num))
+    (table_io_not_increasing (ios := [0, 2, 2]) chkIg rfl rfl rfl rfl (by norm_num [nabs]))
+
+/-- regression (former finding F28-C11-IQKEY): a table passed as `iq` with neither an `"iq"` nor an `"ig"`
+    entry is a ValueError; keyed `"ig"` it is accepted -/
+example : Rejects (mkComp .linreg "l" ([("vo", .int 3), ("iq", .dict tIgNoVi)] : Args ℚ)) :=
+  reject_table_linreg_iq_nokey "l" _ (vo := .int 3) (v := 3) (dr := 0) rfl rfl rfl (by norm_num) rfl rfl
+    (table_missing_key _ _ _ (Or.inl rfl))
+example : Rejects (mkComp .linreg "l" ([("vo", .int 3),
+    ("iq", .dict [("vi", .list [.int 5]), ("io", .list [.int 0, .int 1])])] : Args ℚ)) :=
+  reject_table_linreg_iq_nokey "l" _ (vo := .int 3) (v := 3) (dr := 0) rfl rfl rfl (by norm_num) rfl rfl
+    (table_missing_key _ _ _ (Or.inr (Or.inr rfl)))
+example : ∃ c : Comp ℚ, mkComp .linreg "l" ([("vo", .int 3), ("iq", .dict tIg)] : Args ℚ) = .ok c := ⟨_, rfl⟩
+
+/-- regression (former finding F11): an io axis increasing as given but not in magnitude is refused -/
+def tNegIo : List (String × PV ℚ) :=
+  [("vi", .list [.int 5]), ("io", .list [.int (-2), .int (-1)]), ("vdrop", .list [.list [.int 1, .int 2]])]
+
+example : Rejects (mkComp .vloss "v" ([("vdrop", .dict tNegIo)] : Args ℚ)) :=
+  reject_table_vloss "v" _ (w := 0) rfl rfl
+    (table_io_not_increasing (ios := [-2, -1]) _ rfl rfl rfl rfl (by norm_num [nabs]))
 
 example : Rejects (mkComp .rectifier "r" ([("vdrop", .dict tIgNoVi)] : Args ℚ)) :=
   reject_table_rectifier_vdrop "r" _ rfl (table_missing_key _ _ _ (Or.inl rfl))
 
 example : Rejects (mkComp .rectifier "r" ([("ig", .dict tIgNeg)] : Args ℚ)) :=
-  reject_table_rectifier_ig "r" _ (rr := (0, none)) rfl rfl rfl exIgNeg
+  reject_table_rectifier_ig "r" _ (rr := (nabs 0, none, .float (nabs 0))) rfl rfl rfl exIgNeg
 
 /-- malformed limits: `{"vi": 1.0}`, `{"io": [1]}`, `{"tp": [0, "x"]}` -/
 theorem notGood_num (x : ℚ) : ¬ GoodLimit (PV.float x) := by rintro ⟨a, b, x, y, h, _⟩; cases h
@@ -1075,13 +1067,13 @@ example : Rejects (mkComp .linreg "l" ([("vo", .int 5), ("limits", limBad)] : Ar
 example : Rejects (mkComp .pswitch "s" ([("limits", limBad)] : Args ℚ)) :=
   reject_limits_pswitch "s" _ (w1 := 0) (w2 := 0) (w3 := 0) (p := .const (nabs 0)) rfl rfl rfl rfl (exBad _ rfl)
 example : Rejects (mkComp .pmux "m" ([("limits", limBad)] : Args ℚ)) :=
-  reject_limits_pmux "m" _ (rr := (0, none)) (w2 := 0) (w3 := 0) (p := .const (nabs 0)) rfl rfl rfl rfl
+  reject_limits_pmux "m" _ (rr := (nabs 0, none, .float (nabs 0))) (w2 := 0) (w3 := 0) (p := .const (nabs 0)) rfl rfl rfl rfl
     (exBad _ rfl)
 example : Rejects (mkComp .rectifier "r" ([("vdrop", .int 1), ("limits", limBad)] : Args ℚ)) :=
   reject_limits_rectifier_diode "r" _ (ps := (.const (nabs 1), .float (nabs 1))) (w3 := 0) rfl rfl rfl
     (exBad _ rfl)
 example : Rejects (mkComp .rectifier "r" ([("limits", limBad)] : Args ℚ)) :=
-  reject_limits_rectifier_mosfet "r" _ (rr := (0, none)) (w2 := 0) (w3 := 0) (p := .const (nabs 0))
+  reject_limits_rectifier_mosfet "r" _ (rr := (nabs 0, none, .float (nabs 0))) (w2 := 0) (w3 := 0) (p := .const (nabs 0))
     rfl rfl rfl rfl rfl (exBad _ rfl)
 
 example : BadLimits ([("limits", .dict [("io", .list [.int 1])])] : Args ℚ) :=
